@@ -12,7 +12,7 @@ from common import Ctx, driver_json
 import core_lib as cl
 
 PROPERTY = "C02"
-LEAN_MODULES = ["Proofs.C02", "Proofs.C02.Rerun", "Proofs.C02.DrivingMarket", "Proofs.C02.Rerun2", "Proofs.C02.Markets"]
+LEAN_MODULES = ["Proofs.C02", "Proofs.C02.Rerun", "Proofs.C02.DrivingMarket", "Proofs.C02.Rerun2", "Proofs.C02.Markets", "Proofs.C02.RerunObject"]
 DRIVERS = ["driver_core"]
 RULE = ("pairs of random histories sharing a prefix of k bars (k random, suffixes of different length and content) x market mix {probe market with "
         "data-dependent value, two probe markets minutely+hourly, real UniLpMarket, Uni+Aave, Uni+Deribit (hourly order books; the histories part on "
